@@ -98,6 +98,11 @@ def replay(args):
                     setattr(obj, o["name"], cur)
                 else:
                     obj.add(cur)
+            elif o["op"] == "alias":
+                cur = obj.get(o["mode"])
+                if cur is None:
+                    raise LookupError("unbound")
+                setattr(obj, o["name"], cur)
             elif o["op"] == "get":
                 r = obj.get(o["name"])
                 ev["result"] = ids.get(id(r), -3) if r is not None else -1
@@ -261,5 +266,5 @@ def run(tier, seed, replay_file=None):
         del traces, results, verdicts
     o.traces = ntraces
     o.distinct_nontrivial = sum(1 for t, hs in hists if any(x["op"] in ("setattr", "add") for x in hs)) + len(cd)
-    o.required_cover = ["readd", "setattr", "add", "get", "del_raised", "subclass_raised", "elab", "export", "classdef", "setattr_raised", "add_raised"]
+    o.required_cover = ["alias_raised", "readd", "setattr", "add", "get", "del_raised", "subclass_raised", "elab", "export", "classdef", "setattr_raised", "add_raised"]
     return o
